@@ -383,6 +383,11 @@ def update_parameters(json_object, parameters) -> None:
                         del json_object[key]
                 # set new tensor
                 json_object['tensor'] = parameters[json_object['id']]['tensor']
+            else:
+                # a parameter that is not in the checkpoint can define other
+                # parameters inline (full_like, zeros_like, ones_like, eye_like)
+                for value in json_object.values():
+                    update_parameters(value, parameters)
         else:
             for value in json_object.values():
                 update_parameters(value, parameters)
